@@ -22,6 +22,10 @@ pub struct Caller {
     /// obtain the call future and drop it without ever polling it
     #[serde(default)]
     pub drop_unpolled: bool,
+    /// which of the two services built from the one layer (they share the algorithm, not the
+    /// in-flight counter)
+    #[serde(default)]
+    pub via: u8,
 }
 
 #[derive(Clone, Debug, Serialize, Deserialize, PartialEq)]
@@ -45,6 +49,7 @@ pub fn gen(rng: &mut Rng) -> Scn {
     let initial = rng.range(min as u64, max as u64) as u32;
     let n = rng.range(2, 10) as usize;
     let faulty = rng.chance(2, 3);
+    let two = rng.chance(1, 3);
     let mut callers = vec![];
     for _ in 0..n {
         let start_ms = *rng.pick(&[0u64, 0, 0, 1, 5, 5, 10, 10, 20, 30, 50]);
@@ -53,6 +58,7 @@ pub fn gen(rng: &mut Rng) -> Scn {
             beh: if faulty { gen_behaviour(rng, &[0, 5, 10, 10, 20, 30, 60], 20, 8, 4) } else { gen_behaviour(rng, &[0, 5, 10, 10, 20, 30, 60], 15, 0, 0) },
             cancel: if faulty { gen_cancel(rng, start_ms, 25) } else { CancelSpec::Never },
             drop_unpolled: faulty && rng.chance(1, 10),
+            via: if two { rng.below(2) as u8 } else { 0 },
         });
     }
     Scn {
@@ -86,7 +92,7 @@ pub fn valid(s: &Scn) -> bool {
         && s.beta <= 10
         && !s.callers.is_empty()
         && s.callers.len() <= 12
-        && s.callers.iter().all(|c| c.start_ms <= 300 && c.beh.lat_ms <= 200 && c.beh.yields <= 4)
+        && s.callers.iter().all(|c| c.start_ms <= 300 && c.beh.lat_ms <= 200 && c.beh.yields <= 4 && c.via <= 1)
         && s.knobs.jumps.is_empty()
 }
 
@@ -94,16 +100,19 @@ const PROBE_AT: u64 = 2000;
 
 pub fn run(s: &Scn, ctx: &mut RunCtx) -> RunOutput {
     world::reset();
-    let cfg = s.knobs.cfg(ctx, PROBE_AT + 1000, 0);
+    let mut cfg = s.knobs.cfg(ctx, PROBE_AT + 1000, 0);
+    // callers busy-polling readiness behind a never-completing call cost one step per ms each
+    cfg.max_steps = 60_000;
     let scn = s.clone();
     let n = s.callers.len();
     type Svc = tower_resilience_adaptive::AdaptiveService<SimInner, Algorithm>;
-    let handle: std::rc::Rc<std::cell::RefCell<Option<Svc>>> = Default::default();
+    let handle: std::rc::Rc<std::cell::RefCell<Option<(Svc, Svc)>>> = Default::default();
     let h2 = handle.clone();
     let setup = move || {
         world::with(|w| {
             for (i, c) in scn.callers.iter().enumerate() {
                 w.script.by_req.insert((0, i as u32), vec![c.beh]);
+                w.script.by_req.insert((1, i as u32), vec![c.beh]);
             }
         });
         let alg = if scn.vegas {
@@ -122,18 +131,20 @@ pub fn run(s: &Scn, ctx: &mut RunCtx) -> RunOutput {
         };
         let layer = AdaptiveLimiterLayer::new(alg);
         let base: Svc = layer.layer(SimInner::new(0));
-        *h2.borrow_mut() = Some(base.clone());
+        let base_b: Svc = layer.layer(SimInner::new(1));
+        *h2.borrow_mut() = Some((base.clone(), base_b.clone()));
         let mut defs = vec![];
         for i in 0..=n {
             let (start_ms, cancel) = if i < n { (scn.callers[i].start_ms, scn.callers[i].cancel.to_cancel()) } else { (PROBE_AT, crate::exec::Cancel::Never) };
-            let svc = base.clone();
+            let via = if i < n { scn.callers[i].via } else { 0 };
+            let svc = if via == 0 { base.clone() } else { base_b.clone() };
             let drop_unpolled = i < n && scn.callers[i].drop_unpolled;
             let make: Box<dyn FnOnce() -> LocalFut> = Box::new(move || {
                 Box::pin(async move {
                     let mut svc = svc;
                     // readiness polled by hand so that every answer can be compared with capacity
                     let r = std::future::poll_fn(|cx| {
-                        let true_inflight = world::with(|w| w.in_flight[0]);
+                        let true_inflight = world::with(|w| w.in_flight[via as usize]);
                         let limit = svc.limit() as i64;
                         let r = svc.poll_ready(cx);
                         world::note(if r.is_pending() { "ready_pending" } else { "ready_ok" }, true_inflight, limit);
@@ -165,16 +176,19 @@ pub fn run(s: &Scn, ctx: &mut RunCtx) -> RunOutput {
     };
     let (min, max) = (s.min as usize, s.max as usize);
     let mut step = |_k| {
-        if let Some(h) = handle.borrow().as_ref() {
-            let reported = h.in_flight() as i64;
-            let truth = world::with(|w| w.in_flight[0]);
-            if reported != truth {
-                world::violation(
-                    "C13.in_flight_exact",
-                    if reported > truth { "leak" } else { "undercount" },
-                    format!("t={}us: in_flight() reports {} but {} calls are actually inside the inner service", world::now_us(), reported, truth),
-                );
+        if let Some((ha, hb)) = handle.borrow().as_ref() {
+            for (k, h) in [ha, hb].iter().enumerate() {
+                let reported = h.in_flight() as i64;
+                let truth = world::with(|w| w.in_flight[k]);
+                if reported != truth {
+                    world::violation(
+                        "C13.in_flight_exact",
+                        if reported > truth { "leak" } else { "undercount" },
+                        format!("t={}us: in_flight() of service {} reports {} but {} calls are actually inside its inner service", world::now_us(), k, reported, truth),
+                    );
+                }
             }
+            let h = ha;
             let l = h.limit();
             if l < min || l > max {
                 world::violation("C13.limit_in_bounds", "service", format!("limit() = {} outside [{}, {}]", l, min, max));
@@ -217,9 +231,13 @@ pub fn run(s: &Scn, ctx: &mut RunCtx) -> RunOutput {
                     world::violation("C13.in_flight_exact", "panic", format!("caller {} panicked: {:?}", i, t.panic_msg));
                 }
             }
+            Status::Unresolved if rep.step_limit => {
+                world::probe("step_limit_reached");
+            }
             Status::Unresolved => {
                 // allowed only if blocked behind never-completing calls, or its own call never completes
-                let stuck = calls.iter().filter(|c| c.end_seq.is_none()).count();
+                let my_svc = if i < n { s.callers[i].via } else { 0 };
+                let stuck = calls.iter().filter(|c| c.svc == my_svc && c.end_seq.is_none()).count();
                 let own_never = i < n && s.callers[i].beh.out == Outcome::Never && calls.iter().any(|c| c.req == i as u32);
                 if !own_never && stuck < s.min as usize {
                     world::violation("C13.ready_iff_capacity", "probe_never_ready", format!("caller {} never became ready although only {} calls are still running (min_limit {})", i, stuck, s.min));
